@@ -49,7 +49,7 @@ PROPS = {
     },
     "C14": {
         "rules": [labels.rule_stride, labels.rule_jtorder, labels.rule_label, codegen.rule_isel("x86_64"), codegen.rule_isel("aarch64"),
-                  codegen.rule_isel("rv64"), hygiene.rule_seed, typing_rules.rule_tyrule, codegen.rule_regfile],
+                  codegen.rule_isel("rv64"), hygiene.rule_seed, typing_rules.rule_tyrule, codegen.rule_regfile, formatting.rule_nameprint],
         "text": "Well-formedness of the emitted assembly decided structurally: (R-LABEL) every label-defining site has one of five "
                 "shapes whose languages are pairwise disjoint given the grammar's identifier classes, counters make generated labels "
                 "unique, generated definition names consult the set of used names; (R-STRIDE) jump_length(n) = n * size of the single "
@@ -143,7 +143,7 @@ PROPS = {
         "assumptions": ["that each arm's right-hand side is the right AxCut statement (e.g. producer-first vs consumer-first) is not decided"],
     },
     "C19": {
-        "rules": [sharing.rule_share, sharing.rule_once, sharing.rule_liftstore, sharing.rule_sharepath],
+        "rules": [sharing.rule_share, sharing.rule_once, sharing.rule_liftstore, sharing.rule_sharepath, translate.rule_xlate],
         "text": "Sharing discipline decided by symbolic execution of the translation functions' MIR over lazily refined shapes (finite "
                 "variant sets, no solver): a consumer or statement that reaches two or more consuming uses is the result of "
                 "share()/lift(), or is pinned to a size-bounded shape, or is iterated at most once. All fun2core functions with a "
@@ -169,7 +169,7 @@ PROPS = {
         "rules": [traversal.rule_trav(["scc_core_lang::traits::substitution::Subst", "scc_core_lang::traits::substitution::SubstVar",
                                    "scc_core_lang::traits::uniquify::Uniquify", "scc_core_lang::traits::focus::Focusing",
                                    "scc_core_lang::traits::focus::Bind", "scc_core_lang::traits::typed_free_vars::TypedFreeVars"]), wiring.rule_wire_intra, shape.rule_shape,
-                  fresh.rule_fresh, fresh.rule_maxid, fresh.rule_counter, fresh.rule_eta, fresh.rule_shadow, fresh.rule_substscope, focus.rule_bindorder, enums.rule_sort_selfmaps, inputs.rule_useall_for(["scc_core_lang"], 100)],
+                  fresh.rule_fresh, fresh.rule_maxid, fresh.rule_counter, fresh.rule_eta, fresh.rule_shadow, fresh.rule_substscope, focus.rule_bindorder, focus.rule_focus_cut, enums.rule_sort_selfmaps, inputs.rule_useall_for(["scc_core_lang"], 100)],
         "text": "Structural necessary conditions of focusing: every Subst/SubstVar/Uniquify/Focusing/Bind/TypedFreeVars impl of Core "
                 "visits every subterm (R-TRAV), uniquify dominates the focusing of definitions (R-WIRE), and only producer-only "
                 "shapes reach the `cannot happen` arms of Term<Cns> (R-SHAPE); a local copy of the identifier counter that is lent to a "
